@@ -70,3 +70,94 @@ compute_supported_functions = Contract(
 )
 
 CONTRACTS = [compute_supported_functions]
+
+
+# ---- TPMesh.support / TPMesh.supported_in: Cartesian products of the 1D ranges, dim 1..3 ---------------------------------------------
+from pyvc.values import int_tuple_sort, tuple_components, SetContent, Ref, fresh_name
+
+
+def _tq(dim, body, name='t'):
+    t = z3.Const(fresh_name(name), int_tuple_sort(dim))
+    return z3.ForAll([t], body(t, tuple_components(t)))
+
+
+def _tex(dim, body, name='w'):
+    t = z3.Const(fresh_name(name), int_tuple_sort(dim))
+    return z3.Exists([t], body(t, tuple_components(t)))
+
+
+def _insupp(ms, fc, cc):
+    """cell (tuple of components cc) lies in the support of function (components fc): axis by axis"""
+    return And(*[_cov(ms[d], fc[d], cc[d]) for d in range(len(fc))])
+
+
+def _tables_ok(tabs, extents):
+    """every row of every table is a half-open range inside [0, extent_d]"""
+    out = []
+    for d, (tab, n) in enumerate(zip(tabs, extents)):
+        out.append(ForAll('j', lambda j, tab=tab, n=n: Implies(And(0 <= j, j < tab.shape[0]), And(0 <= tab[j, 0], tab[j, 1] <= n))))
+    return out
+
+
+def _typed_empty_set(var, dim):
+    def f(ex, st):
+        r = Ref(var)
+        srt = int_tuple_sort(dim)
+        st.heap[r.id] = SetContent(z3.EmptySet(srt), srt)
+        st.env[var] = r
+    return f
+
+
+def _support_contract(dim):
+    T = int_tuple_sort(dim)
+
+    def spec_set(S, ms):
+        return lambda t, cc: _tex(dim, lambda w, fc: And(z3.IsMember(w, S), _insupp(ms, fc, cc)))
+
+    return Contract(
+        F, 'TPMesh.support', name='hierarchical:TPMesh.support[dim=%d]' % dim,
+        params={'self': Obj(meshsupp=Tup(*[Arr('int', ndim=2, shape=(None, 2), numpy=True) for _ in range(dim)])), 'indices': SetOf(T)},
+        requires=lambda s: [_tq(dim, lambda t, fc: Implies(z3.IsMember(t, s.indices), And(*[And(0 <= fc[d], fc[d] < s.self.meshsupp[d].shape[0]) for d in range(dim)])))],
+        replace=[(r'supp = set\(\)', _typed_empty_set('supp', dim))],
+        loops={0: LoopSpec(r'for jj in indices', inv=lambda s: [
+            ('cells-of-the-visited-functions', _tq(dim, lambda t, cc: z3.IsMember(t, s.supp.data) == spec_set(s._visited0, s.self.meshsupp)(t, cc)))])},
+        ensures=lambda s: [('union-of-the-supports', _tq(dim, lambda t, cc: z3.IsMember(t, s.result.data) == spec_set(s.indices, s.self.meshsupp)(t, cc)))],
+        options={'timeout_ms': 60000},
+        notes=['functions and cells are tuples of %d integers; the function indices lie inside the tables (precondition: negative numpy indices '
+               'would wrap around); itertools.product of ranges is the box of integer tuples (order and multiplicity are irrelevant for '
+               'set.update); `supp = set()` is the empty set of cells' % dim],
+    )
+
+
+def _supported_in_contract(dim):
+    T = int_tuple_sort(dim)
+
+    def lemma_1d(ms, sf):
+        """postcondition of _compute_supported_functions (the class invariant TPMesh.__init__ establishes axis by axis)"""
+        N, n = ms.shape[0], sf.shape[0]
+        return And(ForAll('k j', lambda k, j: Implies(And(0 <= k, k < n, 0 <= j, j < N), _cov(ms, j, k) == And(sf[k, 0] <= j, j < sf[k, 1]))),
+                   ForAll('k', lambda k: Implies(And(0 <= k, k < n), And(0 <= sf[k, 0], sf[k, 1] <= N))),
+                   ForAll('j', lambda j: Implies(And(0 <= j, j < N), And(0 <= ms[j, 0], ms[j, 1] <= n))))
+
+    return Contract(
+        F, 'TPMesh.supported_in', name='hierarchical:TPMesh.supported_in[dim=%d]' % dim,
+        params={'self': Obj(meshsupp=Tup(*[Arr('int', ndim=2, shape=(None, 2), numpy=True) for _ in range(dim)]),
+                            suppfunc=Tup(*[Arr('int', ndim=2, shape=(None, 2), numpy=True) for _ in range(dim)])), 'cells': SetOf(T)},
+        requires=lambda s: [lemma_1d(s.self.meshsupp[d], s.self.suppfunc[d]) for d in range(dim)] + [
+            _tq(dim, lambda t, cc: Implies(z3.IsMember(t, s.cells), And(*[And(0 <= cc[d], cc[d] < s.self.suppfunc[d].shape[0]) for d in range(dim)])))],
+        replace=[(r'funcs = set\(\)', _typed_empty_set('funcs', dim))],
+        loops={0: LoopSpec(r'for kk in cells', inv=lambda s: [
+            ('functions-over-the-visited-cells', _tq(dim, lambda t, fc: z3.IsMember(t, s.funcs.data) == And(
+                And(*[And(0 <= fc[d], fc[d] < s.self.meshsupp[d].shape[0]) for d in range(dim)]),
+                _tex(dim, lambda w, cc: And(z3.IsMember(w, s._visited0), _insupp(s.self.meshsupp, fc, cc))))))])},
+        ensures=lambda s: [('functions-whose-support-meets-the-cells', _tq(dim, lambda t, fc: z3.IsMember(t, s.result.data) == And(
+            And(*[And(0 <= fc[d], fc[d] < s.self.meshsupp[d].shape[0]) for d in range(dim)]),
+            _tex(dim, lambda w, cc: And(z3.IsMember(w, s.cells), _insupp(s.self.meshsupp, fc, cc))))))],
+        options={'timeout_ms': 60000},
+        notes=['stated over the SAME support relation as TPMesh.support (function table meshsupp), although the code reads the transposed table '
+               'suppfunc: the precondition is the verified postcondition of _compute_supported_functions for every axis (class invariant '
+               'established in TPMesh.__init__, which is not itself under contract); cells inside the mesh (precondition)'],
+    )
+
+
+CONTRACTS = CONTRACTS + [_support_contract(d) for d in (1, 2, 3)] + [_supported_in_contract(d) for d in (1, 2, 3)]
